@@ -257,6 +257,30 @@ theorem sendCoinFromModule_sim {s t : State} (h : Sim s t) (o : Addr) (dn : Deno
     · trivial
     · exact ⟨rfl, rfl, h.last, h.allowed, h.nodup, h.locks, h.refs, h.accum⟩
 
+theorem mintCoinToModule_sim {s t : State} (h : Sim s t) (dn : Denom) (a : Int) :
+    SimS (mintCoinToModule s dn a) (mintCoinToModule t dn a) := by
+  unfold mintCoinToModule
+  rw [h.modBal]
+  split
+  · trivial
+  · exact ⟨h.bal, rfl, h.last, h.allowed, h.nodup, h.locks, h.refs, h.accum⟩
+
+theorem burnCoinFromModule_sim {s t : State} (h : Sim s t) (dn : Denom) (a : Int) :
+    SimS (burnCoinFromModule s dn a) (burnCoinFromModule t dn a) := by
+  unfold burnCoinFromModule
+  rw [h.modBal]
+  split
+  · trivial
+  · split
+    · trivial
+    · exact ⟨h.bal, rfl, h.last, h.allowed, h.nodup, h.locks, h.refs, h.accum⟩
+
+theorem burnCLShares_sim {s t : State} (h : Sim s t) (c : Coins) : SimS (burnCLShares s c) (burnCLShares t c) :=
+  foldlM_sim _ (fun _ _ x h => by
+    split
+    · exact burnCoinFromModule_sim h x.1 x.2
+    · exact h) c h
+
 theorem sendToModule_sim {s t : State} (h : Sim s t) (o : Addr) (c : Coins) :
     SimS (sendToModule s o c) (sendToModule t o c) :=
   foldlM_sim _ (fun _ _ x h => sendCoinToModule_sim h o x.1 x.2) c h
